@@ -120,6 +120,7 @@ type fakeReqStream struct {
 	written []byte
 	closes  int
 	cancel  context.CancelFunc
+	bound   *fakeStream // closing the session closes its streams
 }
 
 func (r *fakeReqStream) Read(p []byte) (int, error) { return 0, io.EOF }
@@ -131,6 +132,9 @@ func (r *fakeReqStream) Close() error {
 	r.closes++
 	if r.cancel != nil {
 		r.cancel()
+	}
+	if r.bound != nil {
+		r.bound.closed = true
 	}
 	return nil
 }
@@ -221,6 +225,7 @@ func wtEncode(m wtMsg, form int) []byte {
 type wtDecoded struct {
 	Msgs     []wtMsg // complete messages, in order
 	Declared []uint64
+	Consumed int    // bytes taken by the complete frames
 	Tail     string // "clean" (ended on a frame boundary), "header" (ended inside a header), "payload" (ended inside a payload)
 	TailKind bool
 	TailHave []byte // payload bytes present of the truncated frame
@@ -263,6 +268,7 @@ func wtDecode(b []byte) wtDecoded {
 		}
 		d.Msgs = append(d.Msgs, wtMsg{bin, b[:n]})
 		d.Declared = append(d.Declared, n)
+		d.Consumed += h + int(n)
 		b = b[n:]
 	}
 }
